@@ -1301,6 +1301,7 @@ Proof.
     destruct (learner_leader (s_reg s) (r_info (s_reg s)) n) as [[[c r] i] w].
     apply pspec_sspec in H. destruct H as [H _]. simpl. split; [reflexivity|]. eapply sspec_weaken; [|exact H]. intros ? _. exact I.
   - (* ELRemove *)
+    destruct (1 <? r_mode (s_reg s)); [split; [apply sspec_nil; exact Hi|left; reflexivity]|]. apply res3_step_res.
     assert (H := learner_remove_spec (s_replica s) (s_lnodes s) (s_reg s) n check Hi).
     destruct (learner_remove (s_lnodes s) (s_reg s) (r_info (s_reg s)) n check) as [[[c r] i] w].
     apply pspec_sspec in H. destruct H as [H _]. simpl. split; [reflexivity|]. eapply sspec_weaken; [|exact H]. intros ? _. exact I.
